@@ -4,7 +4,6 @@
 package dohmem
 
 import (
-	"bytes"
 	"fmt"
 	"io"
 	"net/http"
@@ -24,6 +23,8 @@ type Answer struct {
 	NoLength     bool   // omit/garble the content-length header
 	LengthHeader string // if set, the content-length header carries exactly this value
 	TransportErr error  // fail the round trip
+	// ContentEncoding, if set, is sent as the Content-Encoding header of a Raw body (the body bytes are sent as given)
+	ContentEncoding string
 }
 
 // Unparseable is the logged name of a query the independent codec could not parse.
@@ -85,6 +86,9 @@ func (s *Server) RoundTrip(req *http.Request) (*http.Response, error) {
 			rp.Header.Set("content-length", a.LengthHeader)
 			rp.ContentLength = -1
 		}
+		if a.ContentEncoding != "" {
+			rp.Header.Set("content-encoding", a.ContentEncoding)
+		}
 		return rp, nil
 	}
 	m := &dnsref.Msg{ID: q.ID, Flags: 0x8180 | uint16(a.RCode&0xf), Q: q.Q}
@@ -106,7 +110,7 @@ func resp(req *http.Request, status int, body []byte, noLength bool) *http.Respo
 		cl = -1
 	}
 	return &http.Response{StatusCode: status, Status: fmt.Sprintf("%d", status), Proto: "HTTP/1.1", ProtoMajor: 1, ProtoMinor: 1,
-		Header: h, Body: io.NopCloser(bytes.NewReader(body)), ContentLength: cl, Request: req}
+		Header: h, Body: io.NopCloser(&dribble{b: body}), ContentLength: cl, Request: req}
 }
 
 // Mux routes requests to per-host servers, so that independent cases can run in
@@ -138,4 +142,20 @@ func (m *Mux) RoundTrip(req *http.Request) (*http.Response, error) {
 		return nil, fmt.Errorf("dohmem: no server for host %q", req.URL.Host)
 	}
 	return s.RoundTrip(req)
+}
+
+// dribble is the response body as a socket would deliver it: at most 97 bytes per Read, and the last bytes together with
+// io.EOF (both are legal io.Reader behaviour; a caller that issues a single Read, or drops data returned with EOF, sees less).
+type dribble struct{ b []byte }
+
+func (d *dribble) Read(p []byte) (int, error) {
+	if len(d.b) == 0 {
+		return 0, io.EOF
+	}
+	n := copy(p, d.b[:min(len(d.b), 97)])
+	d.b = d.b[n:]
+	if len(d.b) == 0 {
+		return n, io.EOF
+	}
+	return n, nil
 }
